@@ -146,7 +146,9 @@ fn types_equal_inner(
     // anywhere ends the whole comparison), so nothing new can be learned from it here. The
     // generics in scope are part of the note: whether two IDs are equal depends on them (`A` and
     // `B` are equal where they are explained by the same generic parameter, not elsewhere).
-    if !visited.insert((a, b, a_parent_params.key(), b_parent_params.key())) {
+    // The two root types are not noted: they are compared up to their own generic arguments,
+    // which is not how the same pair is to be compared should it turn up again further down.
+    if !is_root && !visited.insert((a, b, a_parent_params.key(), b_parent_params.key())) {
         #[cfg(feature = "verif-hooks")]
         crate::verif_hooks::emit("te:both-seen", a, b, 0);
         return true;
